@@ -339,24 +339,7 @@ func (o OrderedCollectionPage) Equals(with Item) bool {
 				return nil
 			}
 		}
-		if w.Current != nil {
-			if !ItemsEqual(o.Current, w.Current) {
-				result = false
-				return nil
-			}
-		}
-		if w.First != nil {
-			if !ItemsEqual(o.First, w.First) {
-				result = false
-				return nil
-			}
-		}
-		if w.Last != nil {
-			if !ItemsEqual(o.Last, w.Last) {
-				result = false
-				return nil
-			}
-		}
+		// current, first and last were compared as part of the collection above
 		if w.Next != nil {
 			if !ItemsEqual(o.Next, w.Next) {
 				result = false
